@@ -1,12 +1,12 @@
 """C08 — Every experiment execution gets a fresh, unique version directory."""
-from . import archive_restore as AR, fs, planner as P, vindex as V
+from . import archive_restore as AR, fs, planner as P, runtask as R, vindex as V
 
 META = {
     "explanation": "Abstract interpretation of the version generator over the difference domain (VI4), seeding from MAX(timestamp) (VI5), "
                    "the fresh-directory enforcement point for versioned ops (RT6/RT5), one directory-name helper at every producer/consumer "
                    "(NAME1), restore never writes into an existing directory (RS2), one lowering ⇒ one new version per task (W1), and the "
-                   "destructive-call inventory (DEL1).",
-    "rules": ["VI4", "VI5", "RT6", "RT5", "NAME1", "RS2", "W1(planner)", "DEL1"],
+                   "destructive-call inventory (DEL1); nothing is written into the version directory after the version was committed (RT2: both log handlers are finished before the verdict, nothing follows the commit).",
+    "rules": ["VI4", "VI5", "RT6", "RT5", "NAME1", "RS2", "W1(planner)", "DEL1", "RT2"],
     "assumptions": ["two cond processes running concurrently in one project are outside the quantifier", "time.time() may return any integer sequence"],
     "trusted": ["ast parser", "SQL subset reader"],
 }
@@ -22,3 +22,5 @@ def run(A, rep, tier):
     P.rule_w1_planner(A, rep, F)
     P.rule_pl9_snapshot(A, rep, F)
     fs.rule_del1(A, rep)
+    # nothing is written into the version directory once the version is recorded (logs are complete before the commit)
+    R.rule_rt2(A, rep)
